@@ -21,6 +21,7 @@ type Obligation struct {
 	Goal      string
 	ExpectSat bool
 	NoRetry   bool // known finding: one short attempt, no retry
+	SoftTimeout bool // claimed only when refuted: an undecided answer is a note, not a violation
 	Pos       string
 	Text      string
 	fc        *FnCtx
